@@ -417,6 +417,8 @@ class Interp:
             return TRUE if l["v"] else FALSE
         if l["k"] == "Str":
             return ("str", l["v"])
+        if l["k"] == "Char" and len(l["v"].encode("utf-8")) == 1:
+            return ord(l["v"])
         raise Unsupported("literal " + l["k"])
 
     # ------------------------------------------------------------------ statements
@@ -673,6 +675,14 @@ class Interp:
 
     def e_Index(self, e, scope, frame, g, hint):
         base = self.deref(self.eval(e["base"], scope, frame, g))
+        import strprof
+        if strprof.is_str(base) and e["index"]["k"] == "Range":
+            r = e["index"]
+            if r["inclusive"]:
+                raise Unsupported("inclusive range in a string slice")
+            a = self.deref(self.eval(r["start"], scope, frame, g)) if r["start"] is not None else None
+            b = self.deref(self.eval(r["end"], scope, frame, g)) if r["end"] is not None else None
+            return strprof.slice_(self, g, base, a, b, e)
         idx = self.deref(self.eval(e["index"], scope, frame, g))
         if isinstance(base, VecA):
             return base.get(g, idx)
@@ -797,6 +807,13 @@ class Interp:
                 frame.retval = merge(gn, NONE, frame.retval) if frame.returned != F else NONE
                 frame.returned = self.c.or2(frame.returned, gn)
             return v.val
+        if isinstance(v, EnumV) and v.ty == "Result":
+            ok = v.alts["Ok"][0] if "Ok" in v.alts else F
+            ge = self.c.and2(g, -ok)
+            if ge != F:
+                frame.retval = merge(ge, v, frame.retval) if frame.returned != F else v
+                frame.returned = self.c.or2(frame.returned, ge)
+            return v.alts["Ok"][1][0] if "Ok" in v.alts else UNDEF
         raise Unsupported("? on %r" % (v,))
 
     def e_Closure(self, e, scope, frame, g, hint):
@@ -835,7 +852,15 @@ class Interp:
             self.event(g, "panic", name + "!: " + e["src"][:80])
             return UNDEF
         if name in ("write", "writeln", "println", "eprintln"):
-            return UNIT
+            # formatting is not modelled; the arguments are evaluated (slices written are events of the string profile)
+            for a in (e.get("args") or [])[1:]:
+                if isinstance(a, dict) and a.get("k") not in ("Lit",):
+                    wv = self.deref(self.eval(a, scope, frame, g))
+                    if getattr(self, "on_write", None) is not None:
+                        self.on_write(g, wv)
+            return EnumV("Result", {"Ok": (T, (UNIT,))}) if name in ("write", "writeln") else UNIT
+        if name == "format":
+            return OPQ
         raise Unsupported("macro " + name)
 
     # ---- loops
@@ -952,6 +977,8 @@ class Interp:
         t = self.deref(self.eval(e["end"], scope, frame, g)) if e["end"] is not None else None
         if s is None and t is None:
             return ("fullrange",)
+        if s is UNDEF or t is UNDEF:
+            return IterV([])          # garbage of a path on which a panic event has already been raised
         if e["inclusive"]:
             raise Unsupported("inclusive range")
         # s..t as an iterator of integers: concrete start required
